@@ -118,7 +118,11 @@ partial def genInner (g : GenSt) (outer : List Name) (depth : Nat) : GenSt × (B
     -- class with a method that reads the names (and maybe __class__)
     let mbody := used.foldr (fun n acc => .op (.use n) acc) (if mode < 40 then Body.op (.use "__class__") .nil else .nil)
     let (g, v) := g.fresh
-    let cbody : Body := .op (.bind (used.headD "a") v) (.child .func ("m" ++ toString id) [] mbody .nil)
+    -- the class body itself binds a non-empty prefix of the names its method reads (1 .. all of them): several names that are
+    -- both class-local and free in a method are what puts more than one DefFreeClass entry into the class's freevars
+    let (g, nb) := g.nat (max used.length 1)
+    let boundHere := if used.isEmpty then ["a"] else used.take (nb + 1)
+    let cbody : Body := boundHere.foldr (fun n acc => .op (.bind n v) acc) (.child .func ("m" ++ toString id) [] mbody .nil)
     return (g, fun rest => .child .cls ("C" ++ toString id) [] cbody rest)
 
 def genMulti (g : GenSt) : GenSt × Body := Id.run do
